@@ -48,4 +48,24 @@ SPECS = {
                 'vetted request succeeded; distinct = event-log digest',
         'assumptions': _EDIT_ASSUME + ['only vetted families are asserted against the list model (see DESIGN 2.4); emptying a Set, starred/keyword interleavings and virtual fields with ordering rules are outside the vetted class'],
     },
+    'C04': {
+        'engine': 'editsim', 'mod': 'sim.engines', 'quick': 12000, 'thorough': 200000, 'level': 'exploration',
+        'rule': 'one evaluation = one seeded run on a UNIQUE-TOKEN program (every NAME/NUMBER/STRING/COMMENT token text is '
+                'unique, also in new code) with dense comments/blank lines and a history of 1-8 structured edits with '
+                'trivia/pep8space/elif_/docstr/pars options; after each successful edit: no token outside the allowed set '
+                'A (element extent + trivia-selected comments, computed from the pre-state by harness code) is lost, '
+                'duplicated or reordered, and every non-blank pre-state line outside the allowed line set L is present '
+                'byte-identical and in order; non-trivial = at least one edit changed the source; distinct = event-log digest',
+        'assumptions': _EDIT_ASSUME + ['the allowed window is an upper bound re-implemented from the trivia documentation: sensitivity is lost where it is too wide, never soundness'],
+    },
+    'C07': {
+        'engine': 'editsim', 'mod': 'sim.engines', 'quick': 10000, 'thorough': 200000, 'level': 'exploration',
+        'rule': 'one evaluation = one seeded run: program (60 % unique-token) + history of 2-8 ops mixing edits with read ops '
+                '(copy/get/get_slice/view.copy with trivia/pars/norm/docstr options) and cut-vs-copy+delete differentials on '
+                'forked trees; after each read: source tree (src, dump+positions, query answers) unchanged, returned tree is '
+                'a root, parses standalone and is structurally the original sub-tree/sub-list; cut == copy and remainder == '
+                'delete; unique-token conservation tokens(before) = tokens(remainder) + tokens(piece); non-trivial = at least '
+                'one read/cut op returned a tree; distinct = event-log digest',
+        'assumptions': _EDIT_ASSUME + ['structural equality ignores expression contexts and whitespace after newlines inside string constants (documented docstring re-indentation)'],
+    },
 }
